@@ -13,25 +13,31 @@ Proof.
 Qed.
 
 (* read(i) returns the i-th published message, and only after it exists: the k-th read of
-   reader t (32-bit index (idx0 + k) mod 2^32, logical index pre + k) *)
+   reader t (32-bit index (idx0 + k) mod 2^32, logical index rd_start c t + k, where rd_start c t is
+   the position in the write order of the message the reader's first index names: ANY first index
+   whose ring position has been written - late joiners, readers at different residues) *)
 Theorem rb_read_returns_ith_all P c sched t k : wf_cfg c -> c_rm c <> ROnce ->
   let s := exec sys (step P) (init c) sched in
   s_lapped s = false -> 0 <= k < t_cnt (s_thr s t) ->
-  t_got (s_thr s t) k = s_wr s (c_pre c + k) /\ c_pre c + k < s_nw s.
+  t_got (s_thr s t) k = s_wr s (rd_start c t + k) /\ rd_start c t + k < s_nw s.
 Proof.
   intros Hwf Hm s Hl Hk. destruct (rb_invariants P c sched Hwf) as [_ HB]. fold s in HB.
-  destruct (HB Hl) as [_ Hall]. destruct (Hall t) as (_ & Hr & _). destruct (Hr Hm) as (A & B & _).
-  split; [apply B; assumption|lia].
+  destruct (HB Hl) as [_ Hall]. destruct (Hall t) as (_ & Hr & _). destruct (Hr Hm) as (A0 & A & B & _).
+  rewrite <- A0. split; [apply B; assumption|lia].
 Qed.
 
-Corollary rb_readers_agree_all P c sched t u k : wf_cfg c -> c_rm c <> ROnce ->
+(* every reader sees the same order: whatever their first indices, two readers receive the same
+   message for the same logical index (the k-th read of t and the j-th read of u when
+   rd_start c t + k = rd_start c u + j) *)
+Corollary rb_readers_agree_all P c sched t u k j : wf_cfg c -> c_rm c <> ROnce ->
   let s := exec sys (step P) (init c) sched in
-  s_lapped s = false -> 0 <= k < t_cnt (s_thr s t) -> 0 <= k < t_cnt (s_thr s u) ->
-  t_got (s_thr s t) k = t_got (s_thr s u) k.
+  s_lapped s = false -> 0 <= k < t_cnt (s_thr s t) -> 0 <= j < t_cnt (s_thr s u) ->
+  rd_start c t + k = rd_start c u + j ->
+  t_got (s_thr s t) k = t_got (s_thr s u) j.
 Proof.
-  intros Hwf Hm s Hl H1 H2.
+  intros Hwf Hm s Hl H1 H2 E.
   destruct (rb_read_returns_ith_all P c sched t k Hwf Hm Hl H1) as [E1 _].
-  destruct (rb_read_returns_ith_all P c sched u k Hwf Hm Hl H2) as [E2 _].
+  destruct (rb_read_returns_ith_all P c sched u j Hwf Hm Hl H2) as [E2 _].
   fold s in E1, E2. congruence.
 Qed.
 
@@ -92,3 +98,10 @@ Proof.
   - intros t Hr. simpl. unfold tinit; simpl. rewrite Z.add_0_r.
     destruct (wf_idx _ Hwf t Hr) as [H _]. symmetry. apply Z.mod_small. exact H.
 Qed.
+
+(* the logical position named by a reader's first index (pure arithmetic) *)
+Lemma rd_start_facts c t :
+  rd_start c t mod cap c = c_idx0 c t mod cap c /\
+  c_pre c - cap c < rd_start c t <= c_pre c /\
+  (c_idx0 c t mod cap c = c_pre c mod cap c -> rd_start c t = c_pre c).
+Proof. exact (conj (rd_start_mod c t) (conj (rd_start_range c t) (rd_start_at_cursor c t))). Qed.
